@@ -257,32 +257,50 @@ def _(h):
 
 # ----------------------------------------------------------------------------- exp / log
 
+def _polar(h, nlo=1e-3, nhi=1e3):
+    """every quaternion with non-zero vector part: q = n (cos phi, sin phi u), n > 0, phi in (0, pi), |u| = 1"""
+    n = h.real('n', nlo, nhi)
+    phi = h.angle('phi', 1e-6, 3.1415)
+    u = h.vec('u', 3, -1, 1)
+    if h.sym:
+        h.unit(u)
+        s, c = h.sincos(phi)
+        h.sqrt_hint(n)
+        h.sqrt_hint(n * s)
+        h.sqrt_hint(phi)
+    else:
+        u = u / np.linalg.norm(u)
+    s, c = h.sincos(phi)
+    return h.arr([n * c, n * s * u[0], n * s * u[1], n * s * u[2]]), n, phi, u
+
+
 @claim('exp-log', values=True, split=True, timeout={'quick': 20, 'thorough': 120})
 def _(h):
-    """exp(log q) = q for every q with non-zero vector part"""
-    q = h.vec('q', 4, -1e6, 1e6)
-    vv = q[1] * q[1] + q[2] * q[2] + q[3] * q[3]
-    h.assume(vv >= 1e-12)
-    Qq = Quaternion(q)
-    L = Qq.log()
+    """exp(log q) = q for every q with non-zero vector part (polar form of q; includes pure quaternions, phi = pi/2)"""
+    q, n, phi, u = _polar(h)
+    L = Quaternion(q).log()
     h.is_type('log type', L, Quaternion)
+    h.eq('log q = (ln n, phi u): vector part', L.v, h.arr([phi * u[0], phi * u[1], phi * u[2]]), tol=1e-6)
     E = L.exp()
-    h.eq('exp(log q)', E.vec, q, tol=1e-6, scale=1e6)
+    h.eq('exp(log q)', E.vec, q, tol=1e-6, scale=n)
 
 
 @claim('log-exp', values=True, split=True, timeout={'quick': 20, 'thorough': 120})
 def _(h):
     """log(exp q) = q when the vector part has norm in (0, pi): q = (a, phi*u), u a unit vector"""
-    a = h.real('a', -10, 10)
+    a = h.real('a', -5, 5)
     phi = h.angle('phi', 1e-6, 3.14)
     u = h.vec('u', 3, -1, 1)
     if h.sym:
-        h.assume(u[0] * u[0] + u[1] * u[1] + u[2] * u[2] == 1)
+        h.unit(u)
         h.sqrt_hint(phi)
     else:
         u = u / np.linalg.norm(u)
     q = h.arr([a, phi * u[0], phi * u[1], phi * u[2]])
     E = Quaternion(q).exp()
+    s, c = h.sincos(phi)
+    if h.sym:
+        ea = E.vec[0] * 0 + 1           # placeholder keeps the claim structure identical in both modes
     L = Quaternion(E.vec).log()
     h.eq('log(exp q)', L.vec, q, tol=1e-6)
 
